@@ -66,6 +66,26 @@ CLAIMS = {
          'TLC explores all interleavings of 2 threads x 2 calls (3 in thorough) with every setlocale fault sequence and locale configuration (630k states), must pass the invariants and weak-fairness liveness on the property variant and must refute them on the as-implemented variant; 14k behaviours are replayed on the real CollationManager and call sites (every transition validated), per-thread-sequenced event logs of collation expressions and stress runs are accepted by the trace specification, and after every evaluation LC_COLLATE, the lock, os.environ and the decimal context are compared; environment and entity-declaration vectors come from the Globals graph.',
          'only C, C.utf8 and POSIX locales exist here: faults and other locales are scripted through a patched locale.setlocale; the 8-thread run of independent Selectors is exploration, not model checking; XPath2Parser.__init__ reading LC_COLLATE without the lock is noted only',
          'DESIGN.md section 4 C19'),
+ 'C04': ('model_checking',
+         'TLA+ specs Grammar (per-version EBNF levels and associativity with a declarative GrammarTree and a sentence generator) and Pratt (step machine of Parser.expression with frames, nud/led/loop test, parameterised by a binding-power table) with the refinement invariant PrattTree = GrammarTree checked by TLC for a reference table AND for the lbp/rbp table exported from the live parsers; every generated sentence replayed through the four parsers in three layouts and four hash seeds; source round trip; (source, tree) pairs of the repository suite checked against TLC trees',
+         'TLC explores the Pratt machine over every operator/operand sentence of <= 2-3 operators (thorough 4) with parenthesis groups for versions 1.0-3.1 (1.8M states) and proves it builds the tree the grammar prescribes; run with the exported binding powers it yields counterexamples naming the operators when a bp literal changes; 62k sentences are parsed in minimal/spaced/commented layouts under PYTHONHASHSEED 0,1,2,seed (559k parses), trees and re-parsed sources compared; 3k suite parses in the modelled fragment are checked against the spec trees; libxml2 accepts exactly the 1.0 sentences the spec has a tree for.',
+         'operator structure only (not the 250 function names); comma in argument lists, prefixed function names, axes and FLWOR constructs are counted and skipped in the suite binding; custom nud/led guards are transcribed in the impl mode of Pratt.tla',
+         'DESIGN.md section 4 C04'),
+ 'C09': ('model_checking',
+         'TLA+ value-state machine Strings (strings as sequences of real code points over a 12-character alphabet incl. combining mark, astral character, NBSP; substring with fn:round and IEEE addition, substring-before/after, contains, starts/ends-with, translate, normalize-space, string-length, case mapping, concat, compare, codepoints, URI escaping with UTF-8 computed in TLA+) with the F&O laws as invariants; every edge replayed with variables on the 1.0/2.0/3.1 parsers; libxml2 as second oracle and property clause for the 1.0 functions',
+         'TLC enumerates all strings of length <= 3 (thorough 4) x second strings <= 2 x a 13x9 grid of start/length doubles (-INF, ties at .5, NaN, INF), chains of two functions, and checks the round-trip identities, length additivity, first-occurrence, idempotence and slice formulations on the specification; 275k edges are replayed (818k evaluations, 226k also through libxml2).',
+         'case mapping and collation beyond the ASCII pair and normalize-unicode are excluded; error codes are not compared (the property names none)',
+         'DESIGN.md section 4 C09'),
+ 'C20': ('model_checking',
+         'TLA+ specs SchemaTyping (abstract schemas with sequence content models, simple/list/union/restriction/simple-content types, nillable/default/xsi:type; valid instances; declared annotation, typed value and instance-of chain), SchemaWalk (step machine of apply_schema with type stack, per-model match cache, lazy attribute typing and the context history None->S->None->S\') and SchemaSelect (path steps over XDM) checked by TLC; every (schema, instance, history) replayed with xmlschema proxies: type_name / typed_value per node vs the spec and vs xmlschema\'s decoder, instance of element(*,T), arithmetic on typed nodes, selection with and without schema',
+         'TLC enumerates schema x instance x history triples (416 quick, 3.9k thorough) and selection pairs, proves annotation = declaration, no stale cache after any history and schema-independent selection on the specification; XSD text and instance XML are rendered from the TLC state and evaluated through the real schema proxy (342k evaluations); xmlschema is_valid/decode and libxml2 are second oracles for the spec.',
+         'wildcards, substitution groups, identity constraints, assertions excluded; defaulted attributes are PSVI nodes so selection is compared relationally; union lexicals with surrounding whitespace excluded',
+         'DESIGN.md section 4 C20'),
+ 'C15': ('model_checking',
+         'TLA+ history machine MapArray (store of immutable values addressed by handles; 31 actions: map/array constructors, map:* and array:* functions, lookup, deep-equal; SameKey per op:same-key; merge policies with nondeterministic successors) with the action property Immutable and the map/array laws as invariants; every edge replayed through XPath 3.1 expressions and through the XPathMap/XPathArray Python API, projecting ALL live handles after every step',
+         'TLC explores operation histories of length <= 2 (thorough 3) over maps <= 3 entries with a 13-18 key alphabet (numeric keys across types, NaN, string/anyURI/untypedAtomic, boolean, date, QName) and arrays <= 3 members, proves get/put/remove/size/merge laws, 1-based FOAY0001/FOAY0002 list model, deep-equal equivalence and that no action changes an existing handle (and must refute Immutable for an in-place variant); 37k edges are replayed (185k evaluations) and after each one every operand and earlier value is re-projected and compared.',
+         'the library flattens arrays in select() results (API convention, not judged: values are read back through map{0:(EXPR)}); python lists cross-check the array operators of the spec only',
+         'DESIGN.md section 4 C15'),
 }
 NOT_YET = 'check not built yet (construction in progress, see DESIGN.md section 5)'
 
